@@ -163,10 +163,12 @@ def run(tier, replay):
                 if key in seen_f or len(seen_f) >= 3:
                     continue
                 seen_f.add(key)
+                where = "on the foreign listener" if r["kind"] == "foreign_post" else "handed to the owner listener's dispatcher"
                 V.violation({"property": PROP, "kind": "oracle",
-                             "what": ["a request body on the foreign listener (%s, %s) made the handler panic: %s"
-                                      % (r["method"], r["case"], r["panic"][:200])],
-                             "decoder": "ForeignAPIHandlerV2::post", "foreign_post": {"method": r["method"], "in": r["in"]},
+                             "what": ["a request body %s (%s, %s) made the handler panic: %s"
+                                      % (where, r["method"], r["case"], r["panic"][:200])],
+                             "decoder": "ForeignAPIHandlerV2::post" if r["kind"] == "foreign_post" else "OwnerRpc::handle_request",
+                             "foreign_post": {"method": r["method"], "in": r["in"], "kind": r["kind"]},
                              "body": bytes.fromhex(r["in"]).decode("utf-8", "replace")[:600],
                              "replay_cmd": "./check C09 --replay <this file>"})
     if freplay:
@@ -279,7 +281,9 @@ def run(tier, replay):
         "corpus_cases": n_corpus,
         "divergences": len(divergences),
         "oracle_failures": len(oracle_fail),
-        "foreign_listener_posts": {"posts": len(foreign_rows), "panics": sum(1 for r in foreign_rows if r["panic"] is not None),
+        "foreign_listener_posts": {"posts": sum(1 for r in foreign_rows if r["kind"] == "foreign_post"),
+                                   "owner_dispatcher_calls": sum(1 for r in foreign_rows if r["kind"] == "owner_call"),
+                                   "panics": sum(1 for r in foreign_rows if r["panic"] is not None),
                                    "by_method": dict(collections.Counter(r["method"] for r in foreign_rows)),
                                    "http_status": dict(collections.Counter(str(r["status"]) for r in foreign_rows))},
         "slowest_call_us": slowest,
